@@ -6,10 +6,10 @@ C18 — Pooled objects never leak state between uses or goroutines (model level)
    that is held is not in the pool and every pooled object is unowned (`inv_reachable`), so an object
    in use by one goroutine is never handed to another (`never_shared`).
  * What "release resets" means in the code: the fields of each pooled type that its `reset()` does
-   NOT assign are regenerated from the source on every run (`Generated.unreset_*`) and must be the
+   (and the pool's release function) do NOT assign are regenerated from the source on every run (`Generated.unreset_*`) and must be the
    pinned lists, all of whose members are stateless (mutexes released before the object is returned,
-   the empty `builder` struct, flags rewritten on every acquire, backing arrays whose slices are cut
-   to length 0): `unreset_fields_are_stateless`.
+   the empty `builder` struct, backing arrays whose slices are cut to length 0; the release flags of a
+   writer state were in this list by mistake until the pool scenario found them carried over: F41): `unreset_fields_are_stateless`.
  * The writer's own reset is C12.reset_clean; the ties of every reset/release function are in TiesMpx.
 The race-freedom clause is decided by the race detector in the thorough tier (no memory-model theorem).
 -/
@@ -152,10 +152,20 @@ theorem never_shared (as : List Action) (g g' o : Nat) (s' : State)
 example : (run init [.acquire 1, .use 1 0, .release 1 0, .acquire 2]).owner 0 = some 2 ∧
     (run init [.acquire 1, .use 1 0, .release 1 0, .acquire 2]).dirty 0 = false := by decide
 
+/-- the unrepaired writer pool (F41): a writer that is still owned gets `Put` into the pool because its
+recycled state carried the `releaseWriter` flag of a previous, failed, pooled writer; the next acquire
+hands the object that goroutine 1 still holds to goroutine 2 -/
+def strayPut (s : State) (o : Nat) : State := { s with free := o :: s.free }
+
+theorem unrepaired_shares_object :
+    let s0 := run init [.acquire 1, .use 1 0]
+    let s1 := strayPut s0 0
+    ∃ s2, step s1 (.acquire 2) = some s2 ∧ s2.lastAcquired = some 0 ∧ s0.owner 0 = some 1 ∧ s2.dirty 0 = true := by
+  refine ⟨_, rfl, ?_, ?_, ?_⟩ <;> decide
+
 /-- the fields the reset functions leave alone: all stateless -/
 def statelessFields : List String :=
   ["_elements", "_fields", "_stack",          -- backing arrays of stacks cut to length 0
-   "releaseState", "releaseWriter",            -- rewritten by every acquire (newWriter / acquireWriter)
    "recvMu", "sendMu",                         -- mutexes, unlocked when the object is released
    "sendBuilder"]                              -- `type builder struct{}`: no fields
 
